@@ -18,7 +18,14 @@ ID = 'C14'
 LEVEL = 'model_checking'
 TECHNIQUE = 'explicit-state search over build histories of the real LatexContextDb, lock-step reference model, all databases of the world re-queried in every state'
 
-BOUNDS = {'quick': dict(depth=4, maxdb=3), 'thorough': dict(depth=5, maxdb=3)}
+BOUNDS = {'quick': dict(depth=4, maxdb=3, menu='std'),
+          # thorough = the quick search + a richer menu at the same depth + a lean menu one level deeper
+          'thorough': dict(depth=4, maxdb=3, menu='std', extra=[dict(depth=4, maxdb=3, menu='rich'), dict(depth=5, maxdb=2, menu='lean')])}
+MENUS = {
+    'std': dict(cats=['A', 'B', None], contents=[0, 1, 2], placements=list(range(8))),
+    'rich': dict(cats=['A', 'B', 'C', None], contents=[0, 1, 2, 3], placements=list(range(8))),
+    'lean': dict(cats=['A', None], contents=[1, 2], placements=[0, 1, 2, 3, 7]),
+}
 
 AUTO_PREFIX = '__lctxdb_cat_'
 MACROS = ['x', 'y']
@@ -30,6 +37,7 @@ CONTENTS = {
     0: dict(macros=[], environments=[], specials=[]),
     1: dict(macros=['x'], environments=[], specials=['--']),
     2: dict(macros=['x', 'y'], environments=['x'], specials=['-', '---']),
+    3: dict(macros=['y'], environments=['x'], specials=['--', '---']),
 }
 CATS = ['A', 'B', None]
 PLACEMENTS = [('append', None), ('prepend', None), ('before', 'A'), ('after', 'A'),
@@ -62,17 +70,18 @@ def make_specs(catlabel, cid):
     return out
 
 
-def ops_for(world_ref, maxdb):
+def ops_for(world_ref, maxdb, menu='std'):
     """Enabled operations in a world (from the reference world), simplest first."""
+    M = MENUS[menu]
     ops = []
     for j, db in enumerate(world_ref):
         if not db['frozen']:
             ops.append(('freeze', j))
             ops.append(('set_unknown', j))
-        for cat in CATS:
-            for cid in CONTENTS:
-                for pl in PLACEMENTS:
-                    ops.append(('add', j, cat, cid, pl))
+        for cat in M['cats']:
+            for cid in M['contents']:
+                for pi in M['placements']:
+                    ops.append(('add', j, cat, cid, PLACEMENTS[pi]))
         if len(world_ref) < maxdb:
             for fi in range(len(FILTERS)):
                 ops.append(('filter', j, fi))
@@ -401,7 +410,7 @@ def _unjs(op):
     return tuple(op)
 
 
-def explore(prefix, depth, maxdb, acc, seen):
+def explore(prefix, depth, maxdb, acc, seen, menu='std'):
     """Breadth-first search below a history prefix (shortest histories first) with state
     merging; successors of a violating state are not explored (its counterexample is minimal)."""
     import collections
@@ -431,15 +440,16 @@ def explore(prefix, depth, maxdb, acc, seen):
         seen[key] = rem
         if rem <= 0:
             continue
-        for op in ops_for(world, maxdb):
+        for op in ops_for(world, maxdb, menu):
             queue.append(hist + (op,))
         acc.sample(dict(history=[list(map(_js, op)) for op in hist]))
 
 
 def plan(tier):
     b = BOUNDS[tier]
-    first = ops_for([ref_new()], b['maxdb'])
-    shards = [(op,) for op in first]
+    shards = [('std', b['depth'], b['maxdb'], (op,)) for op in ops_for([ref_new()], b['maxdb'], b['menu'])]
+    for ex in b.get('extra', []):
+        shards += [(ex['menu'], ex['depth'], ex['maxdb'], (op,)) for op in ops_for([ref_new()], ex['maxdb'], ex['menu'])]
     return dict(
         shards=shards,
         bounds=dict(b, cats=['A', 'B', None], contents=len(CONTENTS), placements=len(PLACEMENTS),
@@ -448,20 +458,16 @@ def plan(tier):
               'set_unknown_macro_spec, freeze, filtered_context (4 variants), extended_with (5 variants) on worlds of <= %d '
               'databases; states merged on (reference world, internal chain-map shape, autogen counter); every database of '
               'every state queried for every name.  states = distinct canonical worlds (per shard), transitions = histories '
-              'executed against the real objects; non-trivial = states with more than one category or database.' % (b['depth'], b['maxdb'])),
+              'executed against the real objects; non-trivial = states with more than one category or database.  thorough adds a richer menu '
+              '(4 names x 4 contents) at the same depth and a lean menu (2 names x 2 contents x 5 placements, <= 2 databases) one level deeper.' % (b['depth'], b['maxdb'])),
         assumptions=['equal canonical keys have equal futures: every mutator reads only category_list, d, the chain-map lists, the unknown specs, the frozen flag and the autogen counter, all of which are in the key',
                      'automatic category names are compared as AUTO'],
     )
 
 
 def run_shard(shard, tier, acc):
-    b = BOUNDS[tier]
-    seen = {}
-    if shard == ():
-        return
-    explore(shard, b['depth'], b['maxdb'], acc, seen)
-    if not hasattr(run_shard, '_root'):
-        pass
+    menu, depth, maxdb, prefix = shard
+    explore(prefix, depth, maxdb, acc, {}, menu)
 
 
 def replay(sub, case):
